@@ -40,10 +40,11 @@ Record cmp_public := mkCmpPublic {
   cp_paillier : N;                       (* Paillier N *)
   cp_ped_n : N; cp_ped_s : N; cp_ped_t : N }.
 
-(* protocols/cmp/config.Config, the part WriteTo reads: Threshold (a Go int), RID (None = nil) and the map
+(* protocols/cmp/config.Config, the part WriteTo reads (cc_chainkey: ChainKey, a byte slice; nil and empty are the same
+   value here, both have length 0): Threshold (a Go int), RID (None = nil) and the map
    Public as an association list (a Go map: keys are unique, order is irrelevant -- WriteTo sorts them) *)
 Record cmp_config := mkCmpConfig {
-  cc_threshold : Z; cc_rid : option bytes; cc_public : list (bytes * cmp_public) }.
+  cc_threshold : Z; cc_rid : option bytes; cc_chainkey : bytes; cc_public : list (bytes * cmp_public) }.
 
 Inductive hval :=
 | HBytes (b : option bytes)            (* []byte (None = nil)                         *)
@@ -167,9 +168,23 @@ Fixpoint publics_data (es : list (bytes * cmp_public)) : option bytes :=
   end.
 
 (* config.Config.WriteTo: ThresholdWrapper(c.Threshold) (int -> uint32 conversion), IDSlice.WriteTo of the sorted
-   keys, the RID behind an 8-byte big-endian length (fails on nil), then Public[j].WriteTo for j in sorted order --
-   all into one buffer *)
+   keys, the RID behind an 8-byte big-endian length (fails on nil), the chain key behind an 8-byte big-endian length
+   (nil = empty = length 0), then Public[j].WriteTo for j in sorted order -- all into one buffer *)
 Definition config_data (c : cmp_config) : option bytes :=
+  match cc_rid c with
+  | None => None
+  | Some rid =>
+      let es := sort_entries (cc_public c) in
+      match publics_data es with
+      | Some pubs => Some (be32 (Z.to_N (cc_threshold c mod 4294967296))
+                           ++ idslice_data (map fst es) ++ be64 (len rid) ++ rid
+                           ++ be64 (len (cc_chainkey c)) ++ cc_chainkey c ++ pubs)
+      | None => None
+      end
+  end.
+
+(* before the chain key was written (after the framing repair): ChainKey is not part of the bytes *)
+Definition config_data_v1 (c : cmp_config) : option bytes :=
   match cc_rid c with
   | None => None
   | Some rid =>
@@ -181,7 +196,7 @@ Definition config_data (c : cmp_config) : option bytes :=
       end
   end.
 
-(* before the repair: RID and every Public written RAW *)
+(* before the framing repair: RID and every Public written RAW (and no chain key) *)
 Definition config_data_v0 (c : cmp_config) : option bytes :=
   match cc_rid c with
   | None => None
@@ -239,6 +254,12 @@ Definition enc_hval_v0 (v : hval) : option item :=
   | HCmpConfig (Some c) => opt_item (str "CMP Config"%string) (config_data_v0 c)
   | _ => enc_hval v
   end.
+(* ... and between the framing repair and the chain-key repair *)
+Definition enc_hval_v1 (v : hval) : option item :=
+  match v with
+  | HCmpConfig (Some c) => opt_item (str "CMP Config"%string) (config_data_v1 c)
+  | _ => enc_hval v
+  end.
 
 (* ------------------------------------------------------------------ *)
 (* Well-formed typed values: the ranges that the Go types enforce (used by Proofs/HvalProofs.v: on these
@@ -271,12 +292,13 @@ Definition ids_small (l : list bytes) : bool :=
   forallb (fun id => len id <? 2^64) l && (N.of_nat (length l) <? 2^64).
 
 (* a Config: ValidThreshold's range and a map (unique keys; the association list is its sorted representative).
-   Neither the size of the Paillier moduli nor the RID's length is constrained. *)
+   Neither the size of the Paillier moduli nor the length of the RID or of the chain key is constrained. *)
 Definition wf_config (c : cmp_config) : bool :=
   (0 <=? cc_threshold c)%Z && (cc_threshold c <? 4294967296)%Z
   && keys_sorted (map fst (cc_public c)) && ids_small (map fst (cc_public c))
   && forallb (fun e => wf_public (snd e)) (cc_public c)
-  && match cc_rid c with Some rid => len rid <? 2^64 | None => true end.
+  && match cc_rid c with Some rid => len rid <? 2^64 | None => true end
+  && (len (cc_chainkey c) <? 2^64).
 (* what the pre-fix encoder needed in addition: Pedersen values in range and every Paillier modulus of [w] bytes *)
 Definition wf_config_w (w : nat) (c : cmp_config) : bool :=
   wf_config c
